@@ -213,7 +213,8 @@ pub fn live_limits() -> Limits {
 const HUGE: &str = "1000000000000";
 
 fn int_source(rng: &mut Prng) -> String {
-    match rng.below(12) {
+    match rng.below(14) {
+        12 | 13 => "[1, 2, 3].to_generator().repeat()".into(),
         0 | 1 => "count().to_generator()".into(),
         2 => format!("range({HUGE}).to_generator()"),
         3 => "range(6).to_generator()".into(),
@@ -394,6 +395,12 @@ pub const FIXED: &[(&str, &str)] = &[
     ("gen-skip-huge", "fn main()->int{ count().to_generator().skip(10 ** 12).get(0) }"),
     ("gen-chain-infinite-first", "fn main()->int{ (count().to_generator() + range(3).to_generator()).get(2) }"),
     ("gen-windows-huge", "fn main()->int{ count().to_generator().windows(10 ** 9).get(0).len() }"),
+    ("gen-windows-huge-native-source", "fn main()->int{ [1, 2, 3].to_generator().repeat().windows(10 ** 9).get(0).len() }"),
+    ("gen-skip-huge-native-source", "fn main()->int{ [1, 2, 3].to_generator().repeat().skip(10 ** 12).get(0) }"),
+    ("gen-filter-never-native-source", "fn main()->int{ [true].to_generator().repeat().filter(not).len() }"),
+    ("gen-take-huge-native-source-len", "fn main()->int{ [1, 2, 3].to_generator().repeat().take(10 ** 12).len() }"),
+    ("gen-zip-native-sources", "fn main()->int{ zip([1].to_generator().repeat(), [2].to_generator().repeat()).len() }"),
+    ("gen-group-native-source", "fn main()->int{ [1].to_generator().repeat().group().get(0).len() }"),
     ("gen-chunks-huge", "fn main()->int{ count().to_generator().chunks(10 ** 9).get(0).len() }"),
     ("gen-product-infinite", "fn main()->int{ product(count().to_generator(), count().to_generator()).get(5)::item0 }"),
     ("gen-distinct-constant", "fn main()->int{ range(1).repeat().to_generator().distinct().get(1) }"),
